@@ -72,4 +72,14 @@ def bankSendToModule (w : BankWorld) (a moduleName : Bytes) (coins : List (Bytes
 def bankBurnCoins (w : BankWorld) (moduleName : Bytes) (coins : List (Bytes × Nat)) : BankWorld × Err :=
   ({ w with st := Bank.burnCoins w.st (w.moduleAddr moduleName) coins }, none)
 
+/-! ## Go maps with string keys
+
+A `map[string]T` is the list of its entries in *some* order: `range` visits them in that order, which Go does not
+fix — a theorem about code that ranges over a map has to hold for every list with the same entries. -/
+abbrev GoMap (α : Type) := List (Bytes × α)
+
+/-- `m[k] = v`: replaces the entry of `k`, or adds one (where, among the others, is not defined by Go) -/
+def mapSet {α} (m : GoMap α) (k : Bytes) (v : α) : GoMap α :=
+  if m.any (fun e => e.1 == k) then m.map (fun e => if e.1 == k then (k, v) else e) else m ++ [(k, v)]
+
 end Panacea.Go
